@@ -15,7 +15,13 @@ SJIS_WORDS = [bytes.fromhex("82a0"),              # hiragana a
               bytes.fromhex("b1b2b3"),            # half-width katakana
               bytes.fromhex("93fa967b8cea"),      # nihongo
               bytes.fromhex("8d5c82a682e9"),      # kamaeru
-              bytes.fromhex("41829f42")]          # mixed single/double byte
+              bytes.fromhex("41829f42"),          # mixed single/double byte
+              # 2 bytes in UTF-8 and in Shift-JIS, no 3-byte character, final ASCII (seeded change C01-8: an encoder buffer sized
+              # from the UTF-8 length loses the last character)
+              bytes.fromhex("3930818b43"),        # 90°C
+              bytes.fromhex("35817e35"),          # 5×5
+              bytes.fromhex("83bf31"),            # α1
+              bytes.fromhex("817d78")]            # ±x
 # codec edge strings, every one checked lossless with the library's own codec (harness kind `sjdec`: no "!"):
 #  - half-width katakana whose Shift-JIS bytes are also VALID UTF-8 (lead C2..DF + trail A1..BF): a UTF-8 fast path decodes them wrongly
 #    (seed C17-8); runs of even and odd length, with ASCII around them, next to runs that are not valid UTF-8;
